@@ -226,6 +226,15 @@ def gen(cls, idx, rng, tier):
                 if c[0] == "reserve" and c[1] == name else
                 (c[0], c[1], c[2] * k) if c[0] == "align" and c[1] == name
                 else c for c in cons]
+    elif rng.random() < .1:
+        # "a positive numerical value": a capacity written as a float
+        # (128e6 bytes); requests and reservations stay whole numbers
+        name = rng.choice(sorted(m["res"]))
+        m["res"][name] = float(m["res"][name])
+        for xy in m["exc"]:
+            if name in m["exc"][xy] and rng.random() < .5:
+                m["exc"][xy][name] = float(m["exc"][xy][name])
+        m["float_capacity"] = name
     return dict(machine=m, vertices=vertices, nets=nets, constraints=cons,
                 placements=placements)
 
